@@ -28,6 +28,8 @@ import (
 //  2. the value stored reads the current element: it mentions X[R] or the range value variable
 //     (possibly through a local defined once from it inside the loop); reading X at another
 //     index is a violation;
+//     the element at the write index is never read inside L (`fs = append(fs, X[W])` hands on an
+//     element examined earlier, not the current one);
 //  3. every increment of W is preceded, in its own statement list, by the copy of the kept
 //     element `X[W] = ...`, either bare or as the only statement of a guard that skips the copy
 //     when nothing has been dropped yet (`if W != R`, `if R != W`, `if W < R`, `if R > W`);
@@ -42,7 +44,7 @@ func init() {
 	register(&Rule{
 		Name:  "COMPACT-IN-PLACE",
 		IR:    "ast",
-		Props: []string{"C01"},
+		Props: []string{"C01", "C37"},
 		Floor: 1, // compact.(*Validator).validateQueue; instances outside ingest/compact and encoding are info
 		Doc: "in a loop that filters a slice in place with a read index and a write index (the write index only incremented in the loop and used afterwards to truncate the slice), " +
 			"every element store inside the loop has the form X[write] = <value read from X[read] or the range value>, every increment of the write index is preceded by that copy " +
@@ -485,6 +487,47 @@ func cipCheck(c *Ctx, info *types.Info, u funcUnit, in cipInst, ob *Obligation) 
 				}
 			}
 			stores = append(stores, store{as, good})
+		}
+		return true
+	})
+
+	// 2b. the element at the write index is only ever a copy target: reading X[W] inside the loop
+	// (handing it on, testing it) takes an element that has already been dealt with — or, before
+	// anything was dropped, happens to be the current one, which is why it goes unnoticed
+	ast.Inspect(in.body, func(n ast.Node) bool {
+		if as, ok := n.(*ast.AssignStmt); ok {
+			for _, r := range as.Rhs {
+				ast.Inspect(r, func(m ast.Node) bool {
+					if ix, ok := m.(*ast.IndexExpr); ok && cipSameSlice(info, ix.X, in.x) {
+						if id, ok := ast.Unparen(ix.Index).(*ast.Ident); ok && info.ObjectOf(id) == types.Object(in.w) {
+							violations = append(violations, fmt.Sprintf("%s: `%s` reads %s at the write index %s: that slot holds an element examined earlier, not the current one", c.Position(ix.Pos()), nodeText(c.Fset, as), xs, in.w.Name()))
+						}
+					}
+					return true
+				})
+			}
+			return false
+		}
+		if call, ok := n.(*ast.CallExpr); ok {
+			// a comparison of the current element with the last one kept (de-duplication) reads both
+			alsoCurrent := false
+			for _, a := range call.Args {
+				if ix, ok := ast.Unparen(a).(*ast.IndexExpr); ok && cipSameSlice(info, ix.X, in.x) {
+					if id, ok := ast.Unparen(ix.Index).(*ast.Ident); ok && info.ObjectOf(id) != types.Object(in.w) {
+						alsoCurrent = true
+					}
+				}
+			}
+			for _, a := range call.Args {
+				if alsoCurrent {
+					break
+				}
+				if ix, ok := ast.Unparen(a).(*ast.IndexExpr); ok && cipSameSlice(info, ix.X, in.x) {
+					if id, ok := ast.Unparen(ix.Index).(*ast.Ident); ok && info.ObjectOf(id) == types.Object(in.w) {
+						violations = append(violations, fmt.Sprintf("%s: `%s` reads %s at the write index %s: that slot holds an element examined earlier, not the current one", c.Position(ix.Pos()), nodeText(c.Fset, call), xs, in.w.Name()))
+					}
+				}
+			}
 		}
 		return true
 	})
